@@ -74,6 +74,7 @@ def run_pool(modname, cases, *, x64=True, workers=None, horizon_s=600.0, progres
     for _ in range(workers):
         spawn()
     results = [None] * n
+    died = {}
     done = 0
     fatal = None
     last_progress = time.time()
@@ -120,7 +121,10 @@ def run_pool(modname, cases, *, x64=True, workers=None, horizon_s=600.0, progres
             if not p.is_alive() and wid in running:
                 idx, t0 = running.pop(wid)
                 procs.pop(wid)
-                if results[idx] is None:
+                died[idx] = died.get(idx, 0) + 1
+                if results[idx] is None and died[idx] < 2:
+                    task_q.put((idx, cases[idx]))  # one retry in a fresh worker before it counts
+                elif results[idx] is None:
                     results[idx] = {
                         "transitions": 0,
                         "violations": [
